@@ -1141,7 +1141,15 @@ fn check_c02(doc: &Doc, buf: &mut Vec<u8>, sink: &mut Sink, stats: &mut Stats, s
         }
         Outcome::Err(er) => sink.viol(format!("C02:reparse:rejected:{}", cls), format!("from_json refuses as_json output: {}", er),
                                       replay_of("C02", doc, json!({"as_json": jtxt, "err": er}))),
-        _ => sink.viol(format!("C02:reparse:panic:{}", cls), "from_json panicked on as_json output".into(),
+        Outcome::AccessorPanic(_, b) => {
+            for g in diff_regions(&b, &r0, tlen) {
+                let key = if g == "padding_bytes" { "C02:noncanonical:padding_bytes".to_string() } else { format!("C02:reparse:differs:{}:{}", g, cls) };
+                if !sink.full(&key) {
+                    sink.viol(key, format!("from_json(as_json(event)) differs from the event in region {}", g), replay_of("C02", doc, json!({"as_json": jtxt, "region": g})));
+                }
+            }
+        }
+        Outcome::Panic => sink.viol(format!("C02:reparse:panic:{}", cls), "from_json panicked on as_json output".into(),
                        replay_of("C02", doc, json!({"as_json": jtxt}))),
     }
 }
